@@ -37,10 +37,9 @@ def main():
         props = opts.get("props", meta.get("property", mid.split("_")[0])).split(",")
         r = sh(f"git -C {REPO} apply {d}/patch.diff")
         if r.returncode != 0:
-            r = sh(f"git -C {REPO} apply --3way {d}/patch.diff")
-        if r.returncode != 0:
             results[mid] = {"applied": False, "err": r.stderr[-300:]}
             sh(f"git -C {REPO} checkout -- .")
+            print(mid, "patch does not apply to the current tree (stale):", r.stderr[-200:].strip(), flush=True)
             continue
         try:
             out = {}
